@@ -435,8 +435,9 @@ def enum_ble_schedules(tier):
 # ---------------------------------------------------------------- advertisement contents: mDNS
 def run_mdns_parse(case, R):
     rec = case["rec"]
-    props = {bytes(k) if not isinstance(k, str) else k.encode(): (bytes(v) if not isinstance(v, str) else v.encode()) for k, v in rec["props"]}
-    lower = {k.decode("utf-8", "replace").lower(): v for k, v in props.items()}
+    props = {bytes(k) if not isinstance(k, str) else k.encode(): (None if v is None else bytes(v) if not isinstance(v, str) else v.encode()) for k, v in rec["props"]}
+    # a key that is present without "=value" carries no value: for the description it is as good as absent
+    lower = {k.decode("utf-8", "replace").lower(): v for k, v in props.items() if v is not None}
     addrs = rec["addrs"]
     valid_addrs = [a for a in addrs if not ipaddress.ip_address(a).is_link_local and not ipaddress.ip_address(a).is_unspecified]
 
@@ -465,7 +466,7 @@ def run_mdns_parse(case, R):
         id_txt = id_raw.decode("utf-8") if id_raw is not None else None
     except UnicodeDecodeError:
         id_txt = None
-    wellformed = bool(valid_addrs) and bool(id_txt) and all(isinstance(v, int) for v in nums.values()) and all(_utf8(v) for v in props.values())
+    wellformed = bool(valid_addrs) and bool(id_txt) and all(isinstance(v, int) for v in nums.values()) and all(_utf8(v) for v in props.values() if v is not None)
     R.nt(not wellformed or case.get("pairing", "none") != "none")
     R.cls("mdns-parse:" + ("wellformed" if wellformed else "malformed"), "pairing:" + case.get("pairing", "none"))
 
@@ -551,15 +552,19 @@ def mdns_records(draw):
     nmut = draw(st.integers(0, 3))
     for _ in range(nmut):
         k = draw(st.sampled_from(["id", "c#", "s#", "sf", "ff", "ci", "md"]))
-        op = draw(st.integers(0, 3))
+        op = draw(st.integers(0, 4))
         if op == 0:
             base.pop(k, None)
+        elif op == 4:
+            base[k] = None           # bare key, no "=value"
         elif k == "id":
             base[k] = draw(st.one_of(st.sampled_from(["", "zz", "AA:BB:CC:DD:EE:FF:00"]), st.binary(min_size=1, max_size=4)))
         elif k == "md":
             base[k] = draw(st.one_of(st.text(max_size=8), st.binary(min_size=1, max_size=4)))
         else:
             base[k] = draw(NUMTXT)
+    if draw(st.integers(0, 5)) == 0:
+        base["bare-flag"] = None
     upper = draw(st.booleans())
     props = [[(k.upper() if upper else k), v] for k, v in base.items()]
     addrs = draw(st.lists(ADDR, min_size=1, max_size=5, unique=True))
@@ -667,7 +672,7 @@ SPEC = Property(
     rule=("schedules of 1..3 waiters (timeouts 0.5/1/10/30 s, ids in either case, optional cancellation) and 0..3 advertisements at generated "
           "virtual instants - half of them aimed at a waiter's deadline (-0.25/0/+0.25 s, both scheduling orders) - on the mDNS-based IP and "
           "CoAP controllers, the BLE controller and the aggregate controller, with no pairing / a pairing with cached state / a pairing "
-          "without cached state loaded for the advertised id; advertisement contents: TXT keys in either case, missing keys, "
+          "without cached state loaded for the advertised id; advertisement contents: TXT keys in either case, missing keys, keys without a value, "
           "non-numeric/empty/huge/negative/binary values, address lists mixing IPv4, IPv6, link-local, unspecified; BLE manufacturer data: "
           "every truncation of a valid regular and of an encrypted advertisement, random bytes, byte substitutions, wrong company id / "
           "type byte. Non-trivial: an advertisement while a waiter waits, malformed content, or a loaded pairing."),
